@@ -4,7 +4,7 @@ ENGINES = [
     {
         "name": "symx",
         "path": "/verif/symx",
-        "serves_properties": ["C04", "C07"],
+        "serves_properties": ["C04", "C07", "C16"],
         "kind_free_text": "own symbolic executor: geoh5py's real functions run under CPython with the module-global "
         "`np` (and, for file paths, `h5py`) rebound to z3-backed models; re-execution DFS forks on symbolic "
         "branches; obligations are z3 validity queries; counterexamples are replayed on real numpy/h5py",
@@ -48,6 +48,15 @@ CLAIMED = {
         "data set, no stale/duplicate/negative/wrapped entry) holds again. Shapes (holes, sizes, new length) are "
         "enumerated within stated bounds.",
     ),
+    "C16": _symx(
+        "C16",
+        "bounded symbolic execution of the real Points/Curve/SurfaceMerger.merge_objects (create_object, merge_data) on "
+        "a z3-backed numpy model; z3 validity queries; counterexamples replayed on real numpy",
+        "bounded symbolic model checking: 2-4 detached inputs with symbolic vertices, arbitrary in-range cell indices "
+        "(unreferenced vertices included) and float data on enumerated subsets are merged by the real code; z3 proves "
+        "that merged vertices are the inputs' in order, every merged cell connects the same coordinates as its "
+        "input cell, data are concatenated with NaN where lacking, and the inputs are unchanged.",
+    ),
     "C07": {
         "engine": "symx",
         "technique": "bounded symbolic execution of the real remove_vertices/remove_cells/values-setter code on a "
@@ -90,7 +99,6 @@ NOT_APPLICABLE = {
     "C13": _NOT_BUILT,
     "C14": _NOT_BUILT,
     "C15": _NOT_BUILT,
-    "C16": _NOT_BUILT,
     "C17": _NOT_BUILT,
     "C18": _NOT_BUILT,
 }
